@@ -1051,7 +1051,7 @@ func (v *vC08Net) controller(plan []*vC08Fault, stop <-chan struct{}, done chan<
 		v.mu.Lock()
 		v.armed = f
 		v.mu.Unlock()
-		fallback := time.After(time.Duration(400+v.rg.intn(600)) * time.Millisecond)
+		fallback := time.After(time.Duration(150+v.rg.intn(350)) * time.Millisecond)
 		select {
 		case <-f.fire:
 			f.Fired = "trigger"
